@@ -11,8 +11,9 @@
    step extends Cur or replaces a suffix by fresh blocks (reorg, any depth up to the whole chain).
    Every request remembers the version that was current when it was made (v0); its answer may be
    computed at any version between v0 and the version current at delivery ("ok-now" / "ok-later"),
-   may be an error, a corrupted copy of the block (bad), or — for the latest header — a stale
-   height of the answering version.  Injected errors, corrupt blocks and stale heads are FAULTS and
+   may be an error, a corrupted copy of the block (bad), a forged copy whose hash was recomputed
+   over an altered state diff (fg), a valid block of ANOTHER height (wh), or — for the latest
+   header — a stale height of the answering version.  All of these are FAULTS and
    are budgeted (MaxFaults): the property only promises convergence once the source is stable.
 
    Node (one action per code step; the numbers are lines of sync/sync.go at the pinned commit):
@@ -109,7 +110,8 @@ NoRv    == [on |-> FALSE, lv |-> 0, st |-> "iter", v0 |-> 0, rid |-> 0, cont |->
 NoSp    == [on |-> FALSE, acked |-> FALSE, tag |-> 0, h |-> 0, rid |-> 0, hs |-> -1]
 NoReorg == [on |-> FALSE, s |-> 0, e |-> 0]
 IdlePoll == [st |-> "idle", v0 |-> 0, rid |-> 0, got |-> -1]
-NewTask(h) == [h |-> h, st |-> "run", v0 |-> 0, rid |-> 0, L |-> 0, kind |-> "none", blk |-> 0, bad |-> FALSE, lv |-> 0]
+NewTask(h) == [h |-> h, st |-> "run", v0 |-> 0, rid |-> 0, L |-> 0, kind |-> "none", blk |-> 0, bh |-> 0,
+               bad |-> FALSE, forged |-> FALSE, lv |-> 0]
 
 Init ==
   /\ versions = << [j \in 1..InitLen |-> j] >> /\ nextTag = InitLen + 1 /\ srcSteps = 0 /\ nReorgs = 0 /\ faults = 0
@@ -154,13 +156,24 @@ BlockAt(v, h) == versions[v][h + 1]
 HasBlock(v, h) == h < Len(versions[v])
 
 \* a block answer: r = "ok" | "bad" (corrupted copy) | "err"
+\* r = "ok"  the block of version ver at the requested height
+\*     "bad" a corrupted copy of it that verification (SanityCheckNewHeight) rejects
+\*     "fg"  a FORGED copy: altered state diff, hash recomputed so that header, hash and claimed roots are
+\*           consistent; verification accepts it, only Store's recomputation of the state root can reject it
+\*     "wh"  WRONG HEIGHT: a valid block of version ver at another height (stale / mixed-up answer)
+\*     "err"
 LegalBlockResp(v0, h, resp, ctxDone) ==
-  \/ /\ resp.r \in {"ok", "bad"}
+  \/ /\ resp.r \in {"ok", "bad", "fg"}
      /\ resp.ver \in VerRange(v0) /\ HasBlock(resp.ver, h) /\ resp.tag = BlockAt(resp.ver, h)
+  \/ /\ resp.r = "wh"
+     /\ resp.ver \in VerRange(v0) /\ resp.tag \in Range(versions[resp.ver]) /\ resp.tag # 0
+     /\ ~(HasBlock(resp.ver, h) /\ resp.tag = BlockAt(resp.ver, h))
   \/ resp.r = "err"
+\* the revert loop's answers: honest, failed or corrupted (see the limits in checks/C06.py)
+LegalRevertResp(v0, h, resp, ctxDone) == resp.r \in {"ok", "bad", "err"} /\ LegalBlockResp(v0, h, resp, ctxDone)
 BlockRespCost(v0, h, resp, ctxDone) ==
   CASE resp.r = "ok"  -> 0
-    [] resp.r = "bad" -> 1
+    [] resp.r \in {"bad", "fg", "wh"} -> 1
     [] OTHER -> IF ctxDone \/ \E v \in VerRange(v0) : ~HasBlock(v, h) THEN 0 ELSE 1
 \* corr: what a corrupted copy looks like to code that reads only Hash and ParentHash of the header
 \* ("hash": the hash differs; "parent": the parent hash differs; "other": neither)
@@ -168,7 +181,14 @@ BlockRespsC(v0, h, corrs) ==
   {[r |-> "err", ver |-> 0, tag |-> 0, corr |-> "none"]} \cup
   {[r |-> "ok", ver |-> v, tag |-> BlockAt(v, h), corr |-> "none"] : v \in {x \in VerRange(v0) : HasBlock(x, h)}} \cup
   {[r |-> "bad", ver |-> v, tag |-> BlockAt(v, h), corr |-> c] : v \in {x \in VerRange(v0) : HasBlock(x, h)}, c \in corrs}
-BlockResps(v0, h) == BlockRespsC(v0, h, {"other"})          \* the fetch pipeline verifies: any corruption is the same
+\* exhaustive runs: wrong heights one below and one above the requested one
+WrongHeightResps(v0, h) ==
+  UNION {{[r |-> "wh", ver |-> v, tag |-> BlockAt(v, g), corr |-> "none"] : g \in {x \in {h - 1, h + 1} : x >= 0 /\ HasBlock(v, x)}}
+         : v \in VerRange(v0)}
+ForgedResps(v0, h) ==
+  {[r |-> "fg", ver |-> v, tag |-> BlockAt(v, h), corr |-> "none"] : v \in {x \in VerRange(v0) : HasBlock(x, h)}}
+BlockResps(v0, h) ==                                       \* the fetch pipeline verifies: any corruption is the same
+  BlockRespsC(v0, h, {"other"}) \cup WrongHeightResps(v0, h) \cup ForgedResps(v0, h)
 RevertResps(v0, h) == BlockRespsC(v0, h, {"hash", "parent", "other"})
 
 \* a latest-header answer: r = "ok" (height rh of version ver; stale when below its tip) | "err"
@@ -219,7 +239,8 @@ FetchReturn(i, resp) ==               \* observable: the answer is delivered
   /\ seenVers' = Heard(resp)
   /\ IF resp.r = "err"
      THEN SetFq(i, [fq[i] EXCEPT !.st = "chk"])
-     ELSE SetFq(i, [fq[i] EXCEPT !.st = "done", !.kind = "block", !.blk = resp.tag, !.bad = (resp.r = "bad")])
+     ELSE SetFq(i, [fq[i] EXCEPT !.st = "done", !.kind = "block", !.blk = resp.tag, !.bh = HeightOf(resp.tag),
+                                 !.bad = (resp.r = "bad"), !.forged = (resp.r = "fg")])
   /\ UNCHANGED <<srcVars, local, cancelled, nextFetch, weff, vq, rv, sp, modeVars, curr, revSince>>
 
 IsRevFast(i) ==                       \* exit 1 (also: Height() fails on an empty chain)
@@ -255,9 +276,11 @@ FetchCallback ==
   /\ Len(fq) > 0 /\ fq[1].st = "done"
   /\ fq[1].kind # "none" => (Running(vq) < WV /\ Len(vq) < WV + 2)
   /\ fq' = Tail(fq)
+  \* h of a verifier task is the NUMBER OF THE BLOCK it carries (not the height that was asked for)
   /\ vq' = CASE fq[1].kind = "block"  -> Append(vq, [kind |-> "block", blk |-> fq[1].blk, bad |-> fq[1].bad,
-                                                   h |-> fq[1].h, rid |-> fq[1].rid, st |-> "run", lv |-> 0])
-             [] fq[1].kind = "revert" -> Append(vq, [kind |-> "revert", blk |-> 0, bad |-> FALSE,
+                                                   forged |-> fq[1].forged, h |-> fq[1].bh, rid |-> fq[1].rid,
+                                                   st |-> "run", lv |-> 0])
+             [] fq[1].kind = "revert" -> Append(vq, [kind |-> "revert", blk |-> 0, bad |-> FALSE, forged |-> FALSE,
                                                    h |-> fq[1].h, rid |-> 0, st |-> "done", lv |-> fq[1].lv])
              [] OTHER -> vq
   /\ UNCHANGED <<srcVars, faults, local, cancelled, nextFetch, weff, rv, sp, modeVars, curr, revSince, seenVers>>
@@ -283,9 +306,11 @@ StoreSkip ==                          \* storeTask sees ctx.Done
   /\ vq' = Tail(vq)
   /\ UNCHANGED <<srcVars, faults, local, cancelled, nextFetch, weff, fq, rv, sp, modeVars, curr, revSince, seenVers>>
 
-StoreErr ==                           \* "expected block #n": any error but ErrParentDoesNotMatchHead
+StoreErr ==                           \* any error but ErrParentDoesNotMatchHead: "expected block #n" (a block of
+                                      \* another height), or the state root a forged successor's diff produces
   /\ CallbackReady /\ vq[1].kind = "block" /\ ~vq[1].bad /\ ~cancelled
-  /\ vq[1].h # Len(local)
+  /\ \/ vq[1].h # Len(local)
+     \/ (vq[1].forged /\ ParentOf(vq[1].blk) = HeadTag(local))
   /\ vq' = Tail(vq) /\ cancelled' = TRUE
   /\ UNCHANGED <<srcVars, faults, local, nextFetch, weff, fq, rv, sp, modeVars, curr, revSince, seenVers>>
 
@@ -310,7 +335,7 @@ PostOps(n, hs) ==
   /\ curr' = NoReorg /\ revSince' = <<>>
 
 StoreApply ==                         \* Blockchain.Store returned nil: the chain has a new head
-  /\ CallbackReady /\ vq[1].kind = "block" /\ ~vq[1].bad /\ ~cancelled
+  /\ CallbackReady /\ vq[1].kind = "block" /\ ~vq[1].bad /\ ~vq[1].forged /\ ~cancelled
   /\ vq[1].h = Len(local) /\ ParentOf(vq[1].blk) = HeadTag(local)
   /\ vq' = Tail(vq)
   /\ local' = Append(local, vq[1].blk)
@@ -372,7 +397,7 @@ RevertCall(rid) ==                    \* observable: request BlockByNumber(head.
 
 RevertReturn(resp) ==                 \* observable: the answer; compare hashes
   /\ rv.on /\ rv.st = "wait"
-  /\ LegalBlockResp(rv.v0, Len(local) - 1, resp, cancelled)
+  /\ LegalRevertResp(rv.v0, Len(local) - 1, resp, cancelled)
   /\ faults' = faults + BlockRespCost(rv.v0, Len(local) - 1, resp, cancelled)
   /\ seenVers' = Heard(resp)
   /\ LET realCont == ParentOf(resp.tag) # ParentOf(HeadTag(local)) IN
@@ -498,7 +523,7 @@ IsRevertStep == Len(local') = Len(local) - 1
 StoreSafe ==
   [][IsStoreStep =>
        /\ Prefix(local', Len(local)) = local
-       /\ CallbackReady /\ vq[1].kind = "block" /\ ~vq[1].bad /\ ~cancelled
+       /\ CallbackReady /\ vq[1].kind = "block" /\ ~vq[1].bad /\ ~vq[1].forged /\ ~cancelled
        /\ vq[1].blk = HeadTag(local')
        /\ ParentOf(HeadTag(local')) = HeadTag(local)]_vars
 
